@@ -916,7 +916,15 @@ func (c18) RunCase(c fw.Case, env *fw.Env) *fw.CaseResult {
 			mc.Do("POST", "/v2/collections/nanf/points", map[string]any{"points": []any{
 				map[string]any{"_id": "0c0c0c0c-0000-4000-8000-000000000006", "n": int64(6), "arr": []any{1.0, math.NaN(), "x"}},
 			}})
+			// ... and as 32-bit floats inside arrays (untyped lists, float32 slices, lists of lists)
+			mc.Do("POST", "/v2/collections/nanf/points", map[string]any{"points": []any{
+				map[string]any{"_id": "0c0c0c0c-0000-4000-8000-000000000007", "n": int64(7), "arr32": []any{float32(1), float32(math.NaN())}},
+			}})
+			mc.Do("POST", "/v2/collections/nanf/points", map[string]any{"points": []any{
+				map[string]any{"_id": "0c0c0c0c-0000-4000-8000-000000000008", "n": int64(8), "f32s": []float32{1, float32(math.Inf(1))}, "nested": map[string]any{"l": []any{[]any{float32(math.NaN())}}}},
+			}})
 			for _, body := range []map[string]any{
+				{"points": []any{map[string]any{"_id": "0c0c0c0c-0000-4000-8000-000000000003", "arr32": []any{"a", float32(math.Inf(-1))}}}},
 				{"points": []any{map[string]any{"_id": "0c0c0c0c-0000-4000-8000-000000000004", "extra": float32(math.NaN())}}},
 				{"points": []any{map[string]any{"_id": "0c0c0c0c-0000-4000-8000-000000000004", "nested": map[string]any{"v": []any{math.Inf(1)}}}}},
 			} {
@@ -927,7 +935,7 @@ func (c18) RunCase(c fw.Case, env *fw.Env) *fw.CaseResult {
 			}
 			wr.Status = 200 // always read back: points 3 and 4 are stored in any case
 			if wr.Status == 200 {
-				for _, sel := range [][]any{{"*"}, {"n"}, {"extra"}, {"f"}} {
+				for _, sel := range [][]any{{"*"}, {"n"}, {"extra"}, {"f"}, {"arr32"}, {"f32s", "nested"}} {
 					t := c18tmpl{name: "v2-search-nanf", method: "POST", path: "/v2/collections/nanf/points/search", body: map[string]any{"query": map[string]any{"property": "n", "integer": map[string]any{"value": 0, "operator": "greaterThan"}}, "select": sel, "limit": 10}}
 					raw, ctype, _ := s.encode(t.body, false)
 					s.send(t, fmt.Sprintf("read-back-after-non-finite-write select=%v", sel), raw, ctype, nil, false, true)
